@@ -315,12 +315,17 @@ Definition at_term (semi : bool) (rest : bstring) : bool :=
   end.
 
 (* one component: strtoll, then strtoull on ERANGE, then strtod.
-   uf = a strtod result flagged ERANGE is accepted when it is small (underflow)
+   The literal rules of _GD_TokToNum are parameters; the translator records in
+   Gen/Formats.v which ones the current source has:
+   uf = what happens to a strtod result flagged ERANGE: 0 rejected (pinned
+        source), 1 accepted when small (underflow), 2 accepted
    zf = an integer zero is left to strtod when a floating value is wanted
-   (both rules are absent from the pinned source; the translator records in
-   Gen/Formats.v which of them the current _GD_TokToNum has)
+   pu = strtoull is only tried after a positive strtoll overflow
    want = the caller passed a pointer for this part as a double (re / im) *)
-Definition tok_part_gen (uf zf : bool) (base0 semi want : bool) (s : bstring) : option (npart * bstring) :=
+Definition erange_ok (uf : Z) (b : Z) : bool :=
+  (uf =? 2) || ((uf =? 1) && negb (dbl_is_inf b)).
+
+Definition tok_part_gen (uf : Z) (zf pu : bool) (base0 semi want : bool) (s : bstring) : option (npart * bstring) :=
   let '(neg, mag, rest) := strto_int base0 s in
   let v := if neg then - mag else mag in
   let ll_erange := negb ((- two63 <=? v) && (v <? two63)) in
@@ -328,8 +333,8 @@ Definition tok_part_gen (uf zf : bool) (base0 semi want : bool) (s : bstring) : 
   else
     let try_d :=
       let '(b, rest_d, er) := strtod_model s in
-      if (negb er || (uf && negb (dbl_is_inf b))) && at_term semi rest_d then Some (PDbl b, rest_d) else None in
-    if ll_erange then
+      if (negb er || erange_ok uf b) && at_term semi rest_d then Some (PDbl b, rest_d) else None in
+    if ll_erange && negb (pu && neg) then
       if (mag <? two64) && at_term semi rest then Some (PUInt (if neg then (two64 - mag) mod two64 else mag), rest)
       else try_d
     else try_d.
@@ -341,14 +346,14 @@ Definition part_is_zero (p : npart) : bool :=
   | PDbl b => dbl_is_zero b
   end.
 
-Definition tok_to_num_gen (uf zf : bool) (base0 want_re want_im : bool) (tok : bstring) : numres :=
-  match tok_part_gen uf zf base0 true want_re tok with
+Definition tok_to_num_gen (uf : Z) (zf pu : bool) (base0 want_re want_im : bool) (tok : bstring) : numres :=
+  match tok_part_gen uf zf pu base0 true want_re tok with
   | None => NotNum
   | Some (re, rest) =>
       match rest with
       | [] => Num re None
       | _ :: itok =>
-          match tok_part_gen uf zf base0 false want_im itok with
+          match tok_part_gen uf zf pu base0 false want_im itok with
           | None => NotNum
           | Some (im, _) =>
               if part_is_zero im then Num re (if zf && want_im then Some im else None)   (* zf: the zero keeps its sign *)
@@ -358,8 +363,8 @@ Definition tok_to_num_gen (uf zf : bool) (base0 want_re want_im : bool) (tok : b
   end.
 
 (* the reader of the current source *)
-Definition tok_part := tok_part_gen tok_accepts_underflow tok_zero_via_strtod.
-Definition tok_to_num := tok_to_num_gen tok_accepts_underflow tok_zero_via_strtod.
+Definition tok_part := tok_part_gen tok_erange_rule tok_zero_via_strtod tok_ull_positive_only.
+Definition tok_to_num := tok_to_num_gen tok_erange_rule tok_zero_via_strtod tok_ull_positive_only.
 
 Definition part_dbl (p : npart) : Z :=
   match p with
@@ -382,9 +387,9 @@ Definition looks_numeric (base0 : bool) (tok : bstring) : bool :=
   end.
 
 (* does _GD_TokToNum(printf("%.Pg", x)) asked for a double give x back? *)
-Definition stableb_gen (uf zf : bool) (P : Z) (b : Z) : bool :=
-  match tok_to_num_gen uf zf true true false (print_g P b) with
+Definition stableb_gen (uf : Z) (zf pu : bool) (P : Z) (b : Z) : bool :=
+  match tok_to_num_gen uf zf pu true true false (print_g P b) with
   | Num re None => part_dbl re =? b
   | _ => false
   end.
-Definition stableb := stableb_gen tok_accepts_underflow tok_zero_via_strtod.
+Definition stableb := stableb_gen tok_erange_rule tok_zero_via_strtod tok_ull_positive_only.
